@@ -1,6 +1,7 @@
 package engine
 
 import (
+	"os"
 	"fmt"
 	"go/constant"
 	"go/token"
@@ -780,7 +781,16 @@ func (e *Exec) execBlock(rg *region, b *ssa.BasicBlock, st *State) {
 		case *ssa.Phi, *ssa.DebugRef:
 			continue
 		case *ssa.If:
-			c := e.val(fr, st, x.Cond)
+			c := e.fold(e.val(fr, st, x.Cond))
+			if debugFold && len(e.facts) > 0 && !c.IsTrue() && !c.IsFalse() && debugFoldN < 12 {
+				debugFoldN++
+				fmt.Fprintf(os.Stderr, "unfolded branch in %s: %s\n", fr.fn.Name(), c.Short(400))
+				if debugFoldN == 1 {
+					for k, v := range e.facts {
+						fmt.Fprintf(os.Stderr, "  fact %s := %s\n", k.Short(300), v.Short(40))
+					}
+				}
+			}
 			s1 := st.Clone()
 			s1.Branch(c)
 			s2 := st
@@ -899,6 +909,9 @@ func toIndex(v *smt.Term, t types.Type) *smt.Term {
 	}
 	return smt.ZeroExt(v, 64)
 }
+
+var debugFold = os.Getenv("GOVC_DEBUG_FOLD") != ""
+var debugFoldN int
 
 func (e *Exec) execInstr(fr *frame, st *State, instr ssa.Instruction) {
 	switch x := instr.(type) {
